@@ -219,6 +219,8 @@ def op_write_read(ctx, st, op, prop, info):
                           key={"which": which})
                 d = snapdiff(before, semantic_snap(obj))
                 ctx.check(d is None, "failed_write_changed_object", f"{which}: {d}", key={"which": which})
+            if which == "az" and getattr(st, "member_before_write", None):
+                st.member = dict(st.member_before_write)    # nothing was written: the object and its out-of-step member stay
             continue
         if judge:
             d = snapdiff(before, semantic_snap(obj))
@@ -301,6 +303,8 @@ def op_write_read(ctx, st, op, prop, info):
                 ctx.check(not in_domain, "read_back_raised",
                           f"{which}: reading the file back raised {type(e).__name__}: {e}", key={"which": which})
             log.append([which, "read_raised", type(e).__name__])
+            if which == "az" and getattr(st, "member_before_write", None):
+                st.member = dict(st.member_before_write)    # the written object stays, and so does its out-of-step member
             continue
         log.append([which, "ok", len(data)])
         out_of_step = which == "az" and bool(getattr(st, "member_before_write", None))
@@ -406,9 +410,10 @@ def judge_roundtrip(ctx, st, which, W, R, data, op, fs):
     d = sem_diff(sw, sr)
     ctx.check(d is None, "readback_differs", lambda: f"{which}: read-back object differs from the written one: {d}",
               key={**key, "field": (d or "").split(":")[0].split("[")[0].split(".")[1] if d else ""})
-    mw = jsonish({k: v for k, v in W.meta.items()})
-    # (the entry that tells the reader which class to build may be added by the writer when the object lacks it)
-    mr = jsonish({k: v for k, v in R.meta.items() if not (k == "processing_method" and k not in W.meta)})
+    # (the entry that tells the reader which class to build is the writer's: it is not compared, the class is)
+    mw = jsonish({k: v for k, v in W.meta.items() if k != "processing_method"})
+    mr = jsonish({k: v for k, v in R.meta.items() if k != "processing_method"})
+    ctx.check(type(R) is type(W), "readback_class_differs", f"{which}: a {type(W).__name__} was read back as {type(R).__name__}", key=key)
     ctx.check(canon(mw) == canon(mr), "meta_differs",
               lambda: f"{which}: meta differs after the round trip: {sem_diff(mw, mr)}", key=key)
     # 3. second generation is byte-identical in the numeric block
